@@ -43,10 +43,15 @@ def run(pid, tier, seed, scratch, sel):
     mir_dir, t_dump = dump_mir(scratch, crates)
     cfg = M_TIERS[tier]
     from concurrent.futures import ThreadPoolExecutor
-    conc = 3 if len(sel) > 2 else 1
+    # heavy harnesses get all workers to themselves, the others share the machine three at a time
+    heavy = [s for s in sel if s[2].get("heavy")]
+    light = [s for s in sel if not s[2].get("heavy")]
+    for s in heavy:
+        yield _run_one(pid, tier, seed, scratch, mir_dir, cfg, cfg["jobs"], s)
+    conc = 3 if len(light) > 2 else 1
     jobs = max(4, cfg["jobs"] // conc)
     with ThreadPoolExecutor(max_workers=conc) as ex:
-        futs = [ex.submit(_run_one, pid, tier, seed, scratch, mir_dir, cfg, jobs, s) for s in sel]
+        futs = [ex.submit(_run_one, pid, tier, seed, scratch, mir_dir, cfg, jobs, s) for s in light]
         for f in futs:
             yield f.result()
 
@@ -60,7 +65,8 @@ def _run_one(pid, tier, seed, scratch, mir_dir, cfg, jobs, item):
         t0 = time.time()
         to = meta.get("timeout", {}).get(tier, cfg["timeout"])
         p = subprocess.Popen(cmd, start_new_session=True, stdout=subprocess.PIPE, stderr=subprocess.STDOUT, text=True,
-                             env=dict(os.environ, EBV_REPO_COPY=os.path.join(scratch, "repo")))
+                             env=dict(os.environ, EBV_REPO_COPY=os.path.join(scratch, "repo"),
+                                      MIRSYM_QUERY_TIMEOUT_MS=os.environ.get("MIRSYM_QUERY_TIMEOUT_MS", "20000" if tier == "quick" else "90000")))
         try:
             so, _ = p.communicate(timeout=to)
             timed_out = False
